@@ -56,7 +56,13 @@ def scope(tk, prop, closure=False, depth=None):
         ent = [q for q in p.funcs if q.startswith((R2, RR, IM)) or q == "runlengtharray.rlra_concatenate"]
     elif prop == "C18":
         ent = [q for q in p.funcs if q.startswith("npdataclasses.") and not any(x in q for x in (".empty", "stack_with_ragged", "__str__"))]
-    fs = [p.func(q) for q in ent]
+    # private helpers named in the tables are optional: a refactoring may inline or rename them, and their code is then
+    # reached through the entries that used them; public entry points must exist
+    fs = []
+    for q in ent:
+        if q.rsplit(".", 1)[-1].startswith("_") and not q.rsplit(".", 1)[-1].startswith("__") and p.funcs.get(q) is None and p.maybe_func(q) is None:
+            continue
+        fs.append(p.func(q))
     if closure:
         reach = tk.R.reachable([f.qual for f in fs])
         fs = [p.funcs[q] for q in sorted(reach) if q in p.funcs]
